@@ -333,6 +333,45 @@ bool step(NifFile& nif, const OpSpec& op, const std::string& hist) {
 	return true;
 }
 
+// NifFile::DeleteShape on one shape of the model: the shape goes, together with (part of) what it owns; every block outside the shape's
+// owned sub-graph stays, and every surviving reference designates what it designated before
+bool deleteShapeCheck(NifFile& nif, const std::string& hist, Rng& rng) {
+	auto shapes = nif.GetShapes();
+	if (shapes.empty()) return true;
+	NiShape* S = shapes[rng.below((uint32_t)shapes.size())];
+	std::string sname = S->name.get();
+	GraphSnap g0 = snapshotGraph(nif);
+	if (!g0.has(S)) return true;
+	std::set<NiObject*> owned{S};
+	std::vector<NiObject*> todo{S};
+	while (!todo.empty()) {
+		NiObject* o = todo.back();
+		todo.pop_back();
+		for (auto t : g0.blocks[g0.index.at(o)].refTargets)
+			if (t && owned.insert(t).second) todo.push_back(t);
+	}
+	// blocks shared with the rest of the model are outside this workload (what happens to them is the library's policy)
+	for (auto& b : g0.blocks)
+		if (b.obj && !owned.count(b.obj))
+			for (auto t : b.refTargets)
+				if (t && t != S && owned.count(t)) { R_stat("delete_shape_skipped_shared_children"); return true; }
+	R_phase("DeleteShape");
+	R_eval();
+	nif.DeleteShape(S);
+	GraphSnap g1 = snapshotGraph(nif);
+	std::string what = hist + " -> nif.DeleteShape('" + sname + "', block " + std::to_string(g0.index.at(S)) + " of " + std::to_string(g0.blocks.size()) + ")";
+	if (g1.has(S)) { R_viol("edit-vs-model", "DeleteShape/shape-still-present", what + ": the shape is still in the model"); return false; }
+	for (auto& b : g0.blocks)
+		if (b.obj && !owned.count(b.obj) && !g1.has(b.obj)) {
+			R_viol("edit-vs-model", "DeleteShape/foreign-block-deleted/" + b.type, what + ": block " + std::to_string(g0.index.at(b.obj)) + " (" + b.type + "), which the shape does not own, is gone");
+			return false;
+		}
+	std::string ssite, serr = serialisedSlotsKept(g0, g1, ssite);
+	if (!serr.empty()) { R_viol("edit-vs-model", "DeleteShape/" + ssite, what + ": " + serr); return false; }
+	R_stat("delete_shape_checked");
+	return true;
+}
+
 void finalChecks(NifFile& nif, const std::string& hist, bool defaultSaveToo) {
 	std::string vclass = verClass(nif.GetHeader().GetVersion());
 	R_phase("final:snapshot");
@@ -512,12 +551,25 @@ void run(size_t idx) {
 		if (!m.ok) return;
 		bytes = m.bytes;
 		src = "api:" + m.desc;
+		// the model as built, before any save has sorted it: children are stored in front of their shape
+		NifFile live(*m.nif);
+		R_caseDesc(src + " (as built)");
+		Rng dr(mix(seed, 0xD5));
+		if (deleteShapeCheck(live, src + " (as built, not saved yet)", dr)) finalChecks(live, src + " (as built) -> DeleteShape", false);
 	}
 	NifFile n;
 	if (loadNif(n, bytes) != 0) { R_stat("input_not_accepted"); return; }
 	if (n.HasUnknown()) return;
 	std::string hist = src;
 	R_caseDesc(src);
+	if (src.rfind("real:", 0) == 0 || src.rfind("api:", 0) == 0) {
+		// DeleteShape on the model as loaded (not after the random edits below: their replacement blocks point anywhere, a shape
+		// whose data or shader reference designates the shape itself is no model DeleteShape is meant for)
+		NifFile cp(n);
+		Rng dr(mix(seed, 0xD6));
+		deleteShapeCheck(cp, src + " (as loaded)", dr);
+		R_caseDesc(src);
+	}
 	{
 		Model m0 = buildModel(n);
 		std::string site, err = compareState(n, m0, site);
@@ -553,7 +605,7 @@ void run(size_t idx) {
 }
 
 MonReg reg({"C06", "exploration",
-			"operations AddBlock / DeleteBlock(index) / DeleteBlock(reference object stored in a block) / ReplaceBlock / SetBlockOrder / DeleteBlockByType(orphanedOnly on|off) / NiHeader::DeleteUnreferencedBlocks<NiObject|NiNode> / "
+			"operations NifFile::DeleteShape (on API models as built, children stored in front of the shape, and on real / API models as loaded: the shape goes, nothing outside its owned sub-graph goes, surviving references keep their targets) and AddBlock / DeleteBlock(index) / DeleteBlock(reference object stored in a block) / ReplaceBlock / SetBlockOrder / DeleteBlockByType(orphanedOnly on|off) / NiHeader::DeleteUnreferencedBlocks<NiObject|NiNode> / "
 			"NifFile::DeleteUnreferencedBlocks<NiObject|NiExtraData>. Exhaustive: every sequence up to length 3 (quick) / 4 (thorough) over the state-dependent op alphabet on five "
 			"generated graphs (empty, one block, 4, 6 and 7 blocks with refs, back-pointers, a loose block and a controller) in OB, SK and FO4; random: sequences of 25 (40) ops on real, "
 			"synthesised and API-built models. After every single op the library state is compared with an executable reference model of an indexed object graph built from the verified "
